@@ -259,3 +259,98 @@ theorem add_refines {a b : Geonum ℝ} (ha : a.angle.Inv) (hb : b.angle.Inv) (h0
         _ ≤ 1 / 10 ^ 10 * (1 + a.mag + b.mag) := by nlinarith
 
 end GeonumModel.Exact
+
+namespace GeonumModel.Exact
+open GeonumModel FloatLike FloatSpec Angle Geonum
+
+/-- a general-path `Angle::new` whose normalised total is below one turn has at most four blades, and exactly four only with
+    remainder 0 (exact arithmetic) -/
+theorem new_blade_le_four_real {p d : ℝ} (hfast : (feq d (two : ℝ) && feq (FloatLike.fract p) (zero : ℝ)) = false)
+    (hlt : Angle.newTotal p d < 2 * Real.pi) (h0 : 0 ≤ Angle.newTotal p d) :
+    (Angle.new p d).blade ≤ 4 ∧ ((Angle.new p d).blade = 4 → (Angle.new p d).rem = 0) := by
+  have hpi := Real.pi_pos
+  have hbig : val (F := ℝ) (Angle.newTotal p d) ≤ 2 ^ 48 := by
+    show Angle.newTotal p d ≤ 2 ^ 48
+    have := Real.pi_lt_four
+    have : (2:ℝ) * 4 ≤ 2 ^ 48 := by norm_num
+    linarith
+  have hcore := (newCore_spec (F := ℝ) (Angle.newTotal p d) trivial h0 hbig).2
+  have hnew : Angle.new p d = normalizeBoundaries ⟨fmod (Angle.newTotal p d) qp,
+      toUsize (FloatLike.round (fdiv (fsub (Angle.newTotal p d) (fmod (Angle.newTotal p d) qp)) qp))⟩ := by
+    unfold Angle.new newGeneral; simp [hfast]
+  rw [← hnew, qp_real] at hcore
+  simp only [val_id] at hcore
+  have hq4 : Angle.newTotal p d / (Real.pi / 2) < 4 := by
+    rw [div_lt_iff₀ (by positivity)]; linarith
+  have hfl : ⌊Angle.newTotal p d / (Real.pi / 2)⌋₊ ≤ 3 := by
+    have : ⌊Angle.newTotal p d / (Real.pi / 2)⌋₊ < 4 := by
+      rw [Nat.floor_lt (div_nonneg h0 (by positivity))]; exact_mod_cast hq4
+    omega
+  rcases hcore with ⟨hb, _⟩ | ⟨hb, hr, _⟩
+  · exact ⟨by omega, fun h4 => by omega⟩
+  · exact ⟨by omega, fun _ => hr⟩
+
+/-- **blade policy of the general branch, exact arithmetic**: the sum's blade count is at least the sum of the operands' blade
+    counts and at most one full turn above it, exactly one full turn only with remainder 0 -/
+theorem general_blade_real {a b : Geonum ℝ} (ha : a.angle.Inv) (hb : b.angle.Inv)
+    (h1 : sameAngle a b = false) (h2 : oppositeAngle a b = false) (hcb : a.angle.blade + b.angle.blade ≤ 2 ^ 40) :
+    a.angle.blade + b.angle.blade ≤ (a.add b).angle.blade ∧ (a.add b).angle.blade ≤ a.angle.blade + b.angle.blade + 4 ∧
+    ((a.add b).angle.blade = a.angle.blade + b.angle.blade + 4 → (a.add b).angle.rem = 0) := by
+  have hpi := Real.pi_pos
+  rw [add_general a b h1 h2]
+  set cb : ℕ := a.angle.blade + b.angle.blade with hcbdef
+  set ra : ℝ := FloatLike.atan2 (oppSum a b) (adjSum a b) with hra
+  have harg : |ra| ≤ Real.pi := by
+    show |Complex.arg ⟨adjSum a b, oppSum a b⟩| ≤ Real.pi
+    exact Complex.abs_arg_le_pi _
+  set adjusted : ℝ := ra - (cb : ℝ) * Real.pi / 2 with hadj
+  have hadj' : fsub ra (fdiv (fmul (FloatLike.ofNat cb : ℝ) pi) two) = adjusted := by
+    simp only [r_sub, r_div, r_mul, pi_real, lit_real.2.2.1, hadj]; rfl
+  rw [hadj']
+  have hk53 : cb < 2 ^ 53 := lt_of_le_of_lt hcb (by norm_num)
+  have hcbr : (cb : ℝ) ≤ 2 ^ 40 := by exact_mod_cast hcb
+  have hq : adjusted * Real.pi / Real.pi = adjusted := by field_simp
+  have hb42 : |adjusted * Real.pi / Real.pi| ≤ 2 ^ 42 := by
+    rw [hq, hadj]
+    have h4 := Real.pi_lt_four
+    have : |ra - (cb : ℝ) * Real.pi / 2| ≤ |ra| + |(cb : ℝ) * Real.pi / 2| := abs_sub _ _
+    have h3 : |(cb : ℝ) * Real.pi / 2| ≤ 2 ^ 40 * 2 := by
+      rw [abs_of_nonneg (by positivity)]; nlinarith
+    have : (4:ℝ) + 2 ^ 40 * 2 ≤ 2 ^ 42 := by norm_num
+    linarith
+  obtain ⟨hninv, _⟩ := new_total_real (p := adjusted) (d := Real.pi) hb42
+  -- not the fast path: the divisor is π, not 2
+  have hfast : (feq (Real.pi : ℝ) (two : ℝ) && feq (FloatLike.fract adjusted) (zero : ℝ)) = false := by
+    have : feq (Real.pi : ℝ) (two : ℝ) = false := by
+      rw [lit_real.2.2.1, r_eq]
+      have := Real.pi_gt_three
+      simp; linarith
+    simp [this]
+  obtain ⟨n, hnt, hnt0, _, hneg, hpos⟩ := newTotal_real adjusted Real.pi
+  rw [hq] at hneg hpos hnt
+  have hlt : Angle.newTotal adjusted Real.pi < 2 * Real.pi := by
+    by_cases hs : adjusted < 0
+    · exact hneg hs
+    · push Not at hs
+      rw [hnt, hpos hs]; simp
+      have : adjusted ≤ Real.pi := by
+        rw [hadj]; rw [abs_le] at harg
+        have : (0:ℝ) ≤ (cb : ℝ) * Real.pi / 2 := by positivity
+        linarith
+      linarith
+  obtain ⟨hle4, h4⟩ := new_blade_le_four_real hfast hlt hnt0
+  -- adding cb whole quarter turns
+  have hw := add_whole (F := ℝ) (a := Angle.new adjusted Real.pi) (z := (⟨zero, cb⟩ : Angle ℝ)) hninv trivial (val_zero (F := ℝ))
+  simp only [val_id] at hw
+  have hang : (Geonum.newWithBlade (sqrt (fmax (radicand a b) (zero : ℝ))) cb adjusted (FloatLike.pi : ℝ)).angle
+      = (Angle.new adjusted Real.pi).geometricAdd ⟨zero, cb⟩ := by
+    show Angle.newWithBlade cb adjusted (FloatLike.pi : ℝ) = _
+    unfold Angle.newWithBlade
+    simp only [Angle.add, addVV]
+    rw [new_nat cb hk53, pi_real]
+  rw [hang, hw.1]
+  refine ⟨by omega, by omega, fun h => ?_⟩
+  rw [hw.2.2]
+  exact h4 (by omega)
+
+end GeonumModel.Exact
